@@ -17,10 +17,13 @@ import CifModel.Props.C12Lex
   The class theorems are used through their statements only (the wrappers `block_defect_chars`, `items_class` take the statement of
   the class theorem as a hypothesis).
 
-  NOT here yet: the LINE of the report.  The token-level statements describe the state at which the report is made by the tokens
-  it still feeds, which does not fix its line; once they expose the walk (`Reach`, Lemmas/ParserReach) the line follows from
-  `reach_line` / `reach_line_pending` and `posTok_snoc` of Lemmas/DefectChars: `posAfter 1 0` over the characters up to the end of
-  the token at which the parser notices the defect.
+  The LINE of the report (`OneReportAt … j`), for the classes whose token-level theorem exposes the position of the report
+  (`RepAt`, Lemmas/ParserDefect — the `_at` forms): the report is made `j` tokens into the text, so its line is `endLine cs j` — the
+  line on which the `j`-th token of the text ends, `(posAfter 1 0 (characters up to and including that token)).1` — or
+  `endLine cs (j+1)`, the line on which the next token ends (the end of the text if there is none): `repAt_line` of
+  Lemmas/DefectChars, from `Reach.det` and the walk over accepted chunks (`reach_chunks`, `reach_end`).  (`RepAt` does not say
+  whether the next token had already been scanned when the report was made, hence the two lines; they coincide when both tokens
+  end on the same line.)  Classes without an `_at` form yet conclude `OneReport` (no line).
 -/
 namespace CifModel.Props
 open CifModel CifModel.Model CifModel.Model.Lexer CifModel.Model.Parser CifModel.Spec.Lexical CifModel.Spec.Grammar
@@ -641,21 +644,34 @@ theorem feeds_doc {o : Opts} {cs : List Chunk} (H : TextOk o cs) {c : CU} {rest 
 theorem C12_chars_no_block_header (o : Opts) (cs : List Chunk) (e : Elem) (es : List Elem) (bs : List Block)
     (H : TextOk o cs) (hmfd : o.maxFrameDepth ≠ 0) (ht : toks cs = elemsToks (e :: es) ++ blocksToks bs)
     (hwb : wfElems o (e :: es) [] [] = true) (hwbs : wfBlocks o bs [o.norm []] = true) :
-    OneReport o cs CIF_NO_BLOCK_HEADER ({ code := [], body := e :: es } :: bs) := by
+    OneReportAt o cs CIF_NO_BLOCK_HEADER ({ code := [], body := e :: es } :: bs) 0 := by
   obtain ⟨c, rest, hc, hfirst, hbom⟩ := H.first
   have hfu := fuel_doc H.ok
   have hfe := feeds_doc H hc
+  have hS : ({ scan := Scan.init (renderChunks cs), tok := none } : PS) = { scan := Scan.init (c :: rest), tok := none } := by rw [hc]
   rw [ht] at hfu hfe
   rw [hc] at hfu
   have h1 := Lemmas.WriterChunks.szElems_toks (e :: es)
   have h2 := Lemmas.WriterChunks.szBlocks_toks bs
   have h3 := heads_blocks bs
   simp only [List.length_append, heads_append] at hfu
-  obtain ⟨f, hf⟩ : ∃ f, fuelFor (c :: rest) = f + bs.length + 1 := ⟨fuelFor (c :: rest) - bs.length - 1, by omega⟩
-  obtain ⟨r, h, hr⟩ := C12_no_block_header o e es bs _ f { log := [], cif := [] } H.store hmfd rfl hwb hwbs (by omega) (by omega)
-    (by simpa [List.append_assoc] using hfe)
-  rw [← hf] at h
-  exact ⟨r, by rw [hc, parse_of_parseCif o acceptAll c rest _ H.utf hfirst hbom h]; simp [denote], hr⟩
+  obtain ⟨f, hf⟩ : ∃ f, fuelFor (c :: rest) = (f + bs.length) + 1 := ⟨fuelFor (c :: rest) - bs.length - 1, by omega⟩
+  obtain ⟨s1, r, h4, hr, h5, hrep, _⟩ := no_block_header_step_at o H.store hmfd e es _ _ (f + bs.length) { log := [], cif := [] }
+    (by intro x hx; cases hx) hwb (by omega) (blocks_rest_head bs) (by simpa [List.append_assoc] using hfe)
+  obtain ⟨s2, h6⟩ := blocks_structure o H.store hmfd bs [o.norm []] s1 f acceptAll
+    { log := [r], cif := [] ++ [denoteBlock o.dia o.normKey { code := [], body := e :: es }] } hwbs
+    (by
+      intro x hx
+      simp only [List.nil_append, List.mem_singleton] at hx
+      subst hx; simp [denoteBlock, Container.code])
+    (by omega) h5
+  have h7 : blocksLoop o (fuelFor (c :: rest)) { scan := Scan.init (c :: rest), tok := none } acceptAll { log := [], cif := [] }
+      = .ok s2 { log := [r], cif := denoteBlock o.dia o.normKey { code := [], body := e :: es } :: denote o.dia o.normKey bs } := by
+    rw [hf, h4, h6]; simp
+  refine ⟨r, ?_, hr, ?_⟩
+  · rw [hc, parse_of_blocks o acceptAll c rest s2 _ H.utf hfirst hbom h7]; simp [denote]
+  · rw [← hS] at hrep
+    exact repAt_line o cs H.ok H.fit (Nat.zero_le _) hrep
 
 /-- **C12_chars_invalid_blockcode** — a data block whose code is not a valid block code, any well-formed blocks before and
     behind.  One report, CIF_INVALID_BLOCKCODE; the content is that of the document as it stands (the code is used anyway). -/
